@@ -30,8 +30,8 @@ class Engine:
     # -- runner interface ------------------------------------------------------------------
     def configs(self, tier, prop):
         if tier == "quick":
-            return [("base", 2600), ("crash", 1000), ("stall", 400)]
-        return [("base", 100_000), ("stall", 40_000), ("crash", 60_000)]
+            return [("base", 2600), ("crash", 1000), ("stall", 400), ("crowd", 120)]
+        return [("base", 100_000), ("stall", 40_000), ("crash", 60_000), ("crowd", 6_000)]
 
     def chunk_size(self, config, tier):
         return 50
@@ -58,6 +58,10 @@ class Engine:
     def gen_plan(self, rng, config, tier, prop):
         n_act = rng.choice([2, 2, 3, 3, 4])
         n_proc = rng.randint(1, min(3, n_act))
+        if config == "crowd":
+            # the deterministic counterpart of "16 processes released simultaneously"
+            n_act = rng.randint(6, 16)
+            n_proc = rng.choice([n_act, n_act, max(2, n_act // 2)])
         proc_of = [rng.randrange(n_proc) for _ in range(n_act)]
         # renumber processes in order of first appearance
         seen = {}
@@ -66,7 +70,7 @@ class Engine:
         actors = []
         for a in range(n_act):
             calls = []
-            for _ in range(rng.choice([1, 1, 2])):
+            for _ in range(rng.choice([1, 1, 2]) if config != "crowd" else 1):
                 t = 0 if same_text else rng.choice([0, 0, 1, 1, 2])
                 calls.append({"text": t, "exp_days": rng.choice([30, 30, 1, 0]),
                               "always_update": rng.random() < 0.3})
@@ -258,7 +262,8 @@ class Engine:
 
             source = core.ReplaySchedule(plan.get("schedule")) if replay else core.SeedSchedule(
                 plan["sched_seed"], plan["cost"][0], plan["cost"][1])
-            sched = core.Sched(clock, source, log, step_cap=4000, stalls=plan["stalls"], crash=plan["crash"])
+            sched = core.Sched(clock, source, log, step_cap=4000 if len(plan["actors"]) <= 4 else 20000,
+                               stalls=plan["stalls"], crash=plan["crash"])
             shim = sqlshim.SqlShim(sched, sandbox, plan["gc_latency_us"])
             n_proc = 1 + max(a["proc"] for a in plan["actors"])
             plabels = [LABELS[(plan.get("labels") or [0] * n_proc)[k % len(plan.get("labels") or [0])] % 2] for k in range(n_proc)]
